@@ -120,6 +120,9 @@ def run(ctx):
     if not m.violated or m.violated == "error":
         ctx.machinery("TLC mutant TM_nokill not killed")
     ctx.note(f"TLC Termination/TM: {r.generated} states; mutant TM_nokill (terminate never kills) killed by {m.violated}")
+    lt = tlc.run("Termination", "TM_linger_term.cfg", scratch=ctx.scratch, timeout=600, parse_trace=False)
+    if not lt.ok:
+        ctx.machinery(f"TLC Termination/TM_linger_term: {lt.violated} {lt.error[:300]}")
     envs = ["idle", "receive", "busy", "sleep", "swallow", "sigign", "thread", "nondaemon", "stopped", "dead"]
     scs = []
     for env in envs:
